@@ -86,8 +86,9 @@ def contains_yield(st: ast.AST) -> bool:
 
 
 class CFG:
-    def __init__(self, func: Func, gen_throw: Optional[bool] = None):
+    def __init__(self, func: Func, gen_throw: Optional[bool] = None, all_raise: bool = False):
         self.func = func
+        self.all_raise = all_raise  # every node containing a call may raise (not only inside try)
         self.nodes: List[Node] = []
         self.entry = self._new("entry")
         self.ret = self._new("ret")
@@ -124,6 +125,14 @@ class CFG:
         n = self._new(kind, st)
         if ctx.in_try:
             self._edge(n, ctx.exc, "exc")
+        elif self.all_raise and not isinstance(st, (ast.FunctionDef, ast.AsyncFunctionDef, ast.ClassDef)):
+            probe = st
+            if kind == "for":
+                probe = st.iter
+            elif kind == "with":
+                probe = ast.Tuple(elts=[i.context_expr for i in st.items], ctx=ast.Load())
+            if any(isinstance(x, ast.Call) for x in ast.walk(probe) if not isinstance(x, ast.Lambda)):
+                self._edge(n, ctx.exc, "exc")
         return n
 
     def _cond(self, e: ast.expr, t, f, ctx: Ctx):
@@ -462,11 +471,11 @@ def path_from(cfg: CFG, src: Node, targets: Iterable[Node], blocked_nodes: Itera
     return list(reversed(out))
 
 
-_cfg_cache: Dict[Tuple[int, str], CFG] = {}
+_cfg_cache: Dict[Tuple[int, str, bool], CFG] = {}
 
 
-def cfg_of(func: Func) -> CFG:
-    k = (id(func.node), func.key)
+def cfg_of(func: Func, all_raise: bool = False) -> CFG:
+    k = (id(func.node), func.key, all_raise)
     if k not in _cfg_cache:
-        _cfg_cache[k] = CFG(func)
+        _cfg_cache[k] = CFG(func, all_raise=all_raise)
     return _cfg_cache[k]
